@@ -283,15 +283,25 @@ func (h *harness) shrink(first *outcome) *outcome {
 	}
 	budget := 120
 	t0 := time.Now()
-	for changed := true; changed && budget > 0; {
-		changed = false
-		for i := len(cur.sess.Steps) - 1; i >= 0 && budget > 0 && time.Since(t0) < 15*time.Second; i-- {
+	// delta debugging: drop chunks of steps, halving the chunk size down to single steps
+	for size := (len(cur.sess.Steps) + 1) / 2; size >= 1 && budget > 0 && time.Since(t0) < 15*time.Second; {
+		changed := false
+		for i := len(cur.sess.Steps) - size; i >= 0 && budget > 0 && time.Since(t0) < 15*time.Second; i -= size {
 			cand := cur.sess
-			cand.Steps = append(append([]Step{}, cur.sess.Steps[:i]...), cur.sess.Steps[i+1:]...)
+			cand.Steps = append(append([]Step{}, cur.sess.Steps[:i]...), cur.sess.Steps[i+size:]...)
 			budget--
 			if o := fails(cand); o != nil {
 				cur, changed = o, true
 			}
+		}
+		if size == 1 && !changed {
+			break
+		}
+		if !changed || size > len(cur.sess.Steps) {
+			size /= 2
+		}
+		if size > len(cur.sess.Steps) {
+			size = len(cur.sess.Steps)
 		}
 	}
 	if cur != first {
